@@ -15,7 +15,7 @@ VERIF = os.path.dirname(os.path.dirname(os.path.abspath(__file__)))
 REPO = os.environ.get("VERIF_REPO", "/repo")
 BUILD = os.path.join(VERIF, ".build")
 COQ = os.path.join(VERIF, "coq")
-GOENV = dict(os.environ, GOFLAGS="-mod=mod", GOPROXY="off")
+GOENV = dict(os.environ, GOFLAGS="-mod=mod", GOPROXY="off", GODEBUG="goindex=0")
 GOENV.pop("GOTOOLCHAIN", None)
 GOENV.pop("GOSUMDB", None)
 ZZ = "internal/zzverif"
@@ -90,9 +90,15 @@ def overlay_file():
     if os.path.isdir(hooks):
         # hooks/<pkg path with __ for />/file_verif.go  ->  /repo/internal/<pkg path>/file_verif.go
         for d in sorted(os.listdir(hooks)):
+            if d.startswith("mod@"):
+                # a dependency of /repo: the hook file is laid over the module's directory in the cache
+                rc, mdir = sh(["go", "list", "-m", "-f", "{{.Dir}}", d[4:].replace("__", "/")], cwd=REPO, env=GOENV)
+                target = mdir.strip().splitlines()[-1]
+            else:
+                target = os.path.join(REPO, "internal", d.replace("__", "/"))
             for f in sorted(os.listdir(os.path.join(hooks, d))):
                 if f.endswith(".go"):
-                    rep[os.path.join(REPO, "internal", d.replace("__", "/"), "zz_" + f)] = os.path.join(hooks, d, f)
+                    rep[os.path.join(target, "zz_" + f)] = os.path.join(hooks, d, f)
     path = os.path.join(BUILD, "overlay.json")
     new = json.dumps({"Replace": rep}, indent=1, sort_keys=True)
     if not os.path.exists(path) or open(path).read() != new:
